@@ -1337,14 +1337,16 @@ impl HelperAttributes {
         target: AttributeTarget,
         kinds: &HelperAttributeKinds,
     ) -> Result<Self> {
-        let items = if kinds.derive_ex {
-            DeriveEntry::from_args_list(&parse_derive_ex_attrs(attrs)?)?
-                .into_iter()
-                .map(|x| (x.kind, x))
-                .collect()
-        } else {
-            HashMap::new()
-        };
+        let mut items = HashMap::new();
+        if kinds.derive_ex {
+            for x in DeriveEntry::from_args_list(&parse_derive_ex_attrs(attrs)?)? {
+                let (kind, span) = (x.kind, x.span);
+                if items.insert(kind, x).is_some() {
+                    // keeping only one of the entries would silently drop the other one's `bound(...)`
+                    bail!(span, "`{}` is specified more than once.", kind);
+                }
+            }
+        }
         let default = if kinds.default {
             HelperAttributeForDefault::from_attrs(attrs)?
         } else {
